@@ -637,6 +637,17 @@ func buildConnectModel(p *Prog, a *connectAnchors) *connectModel {
 			return avNonNil
 		},
 	}
+	mach.ParamField = func(pa *ssa.Parameter, f int) (AV, bool) {
+		if nil == inst {
+			return avU, false
+		}
+		if fields, ok := inst.ParamFields[pa]; ok {
+			if av, ok := fields[f]; ok {
+				return mapPtr(av), true
+			}
+		}
+		return avU, false
+	}
 	mach.Call = func(r *Run, c *ssa.CallCommon, idx int) AV {
 		name := calleeName(c)
 		switch name {
